@@ -21,6 +21,8 @@
 (* follows from itself: emptying the trie first leaves unreachable garbage,*)
 (* emptying the link store first leaves dangling pointers (CrashSafe fails *)
 (* with ClearOrder = <<"XL", "XT">>, configuration MC_crash_clearbug).     *)
+(* Opening a folder with overwrite = True is the same write list issued by *)
+(* the constructor.                                                        *)
 (***************************************************************************)
 EXTENDS TraphImpl, TraphAbs, Torn, TLC
 
